@@ -157,7 +157,8 @@ Theorem C08_float_no_relative_variance_bound :
 Proof. exact no_relative_variance_bound. Qed.
 Print Assumptions C08_float_no_relative_variance_bound.
 
-(* stddev^2 against the exact population variance, up to 10^6 values with |x_i| <= M: the
+(* stddev^2 against the exact population variance, up to 10^6 values with |x_i| <= M: accurate
+   RELATIVE to the variance, plus the squared error of the mean (at most (2 n u M)^2).  The
    hypotheses say that nothing overflows and that no product or quotient on the way is subnormal *)
 Theorem C08_tolerance_sound_variance :
   forall (xs : list PrimFloat.float) (count : PrimFloat.float) (M : R),
@@ -171,11 +172,14 @@ Theorem C08_tolerance_sound_variance :
     (FR (go_sum_of_diffs xs (go_mean xs count)) / FR count = 0
      \/ bpow radix2 (-1022) <= Rabs (FR (go_sum_of_diffs xs (go_mean xs count)) / FR count)) ->
     Forall (fun x => Rabs (FR x) <= M) xs ->
-    Rabs (FR (go_stddev xs count) * FR (go_stddev xs count) - exact_variance xs) <= / 1000000000 * (M * M).
+    Rabs (FR (go_stddev xs count) * FR (go_stddev xs count) - exact_variance xs)
+      <= / 1000000000 * exact_variance xs + 5 * ((INR (length xs) * u) * (INR (length xs) * u)) * (M * M).
 Proof. exact tolerance_sound_variance. Qed.
 Print Assumptions C08_tolerance_sound_variance.
 
-(* the boolean of check_single: close (smax * smax) (t_var t) (stddev * stddev) *)
+(* the boolean of check_single and of C08Full.timer_matches: var_close n smax (t_var t) (stddev * stddev),
+   i.e. |Var - stddev^2| <= 1e-9 * Var + 5 * (n * 2^-53)^2 * smax^2 in exact rationals.  (A scale of
+   smax^2 alone, as used before round 4, accepts the cancelling formula SUM x^2 - mean * SUM x.) *)
 Theorem C08_tolerance_sound_variance_qc :
   forall (bs bs' : list Z) (count : PrimFloat.float) (o : Z),
     Permutation bs bs' -> (0 < length bs)%nat -> (Z.of_nat (length bs) <= 1000000)%Z ->
@@ -189,7 +193,7 @@ Theorem C08_tolerance_sound_variance_qc :
     (FR (go_sum_of_diffs xs (go_mean xs count)) / FR count = 0
      \/ bpow radix2 (-1022) <= Rabs (FR (go_sum_of_diffs xs (go_mean xs count)) / FR count)) ->
     float_of_bits o = go_stddev xs count ->
-    C08Single.close (C08Single.scale_max (map Qc_of_bits bs) * C08Single.scale_max (map Qc_of_bits bs))%Qc
-                    (qvariance (map Qc_of_bits bs)) (Qc_of_bits o * Qc_of_bits o)%Qc = true.
+    C08Single.var_close (length bs) (C08Single.scale_max (map Qc_of_bits bs))
+                        (qvariance (map Qc_of_bits bs)) (Qc_of_bits o * Qc_of_bits o)%Qc = true.
 Proof. exact (fun bs bs' count o Hp => tolerance_sound_variance_qc bs bs' Hp count o). Qed.
 Print Assumptions C08_tolerance_sound_variance_qc.
